@@ -114,6 +114,16 @@ def gen_case(rng, i, big=False):
     # a first run leaves a non-zero internal_state / state behind; then the checked run starts from it or from from_state
     c["warm"] = rrows(rng, rng.randint(1, 3), d) if (rng.random() < 0.4 and not (c["fb"] and c["fb"]["mode"] == "model")) else None
     c["r0"] = [core.dyadic(rng, 8, 2) for _ in range(n)] if rng.random() < 0.5 and not (c["fb"] and c["fb"]["mode"] == "model") else None
+    # hyper-parameters read at every step may be reassigned (attribute assignment) on the initialised node between two runs:
+    # the node is built and warmed up with c["pre"], then `node.lr = ...` / `node.activation = ...` set the values of the checked run
+    c["pre"] = None
+    if rng.random() < 0.3 and not (c["fb"] and c["fb"]["mode"] == "model"):
+        pre = {"lr": Fraction(rng.randint(0, 8), 8) if rng.random() < 0.7 else [Fraction(rng.randint(0, 8), 8) for _ in range(n)]}
+        if c["act"] in EXACT and rng.random() < 0.5:
+            pre["act"] = rng.choice(list(EXACT))
+        c["pre"] = pre
+        if c["warm"] is None:
+            c["warm"] = rrows(rng, rng.randint(1, 3), d)
     return c
 
 
@@ -130,15 +140,29 @@ def gen_init_case(rng):
 
 
 # ------------------------------------------------------------------------------------------ the real library
+def lr_value(lr):
+    return np.array([float(fr(v)) for v in lr]) if isinstance(lr, list) else (int(lr) if isinstance(lr, int) else float(fr(lr)))
+
+
+def reassign(node, c):
+    """attribute assignment on the live node (goes to the hypers through Node.__setattr__)"""
+    pre = c.get("pre")
+    if pre:
+        node.lr = lr_value(c["lr"])
+        if "act" in pre:
+            node.activation = exact_fn(c["act"])
+
+
 def build(c):
     """Construct the real Reservoir of a scenario (not yet initialised). Returns (node, info)."""
     rpy()
     import scipy.sparse as sp
     from reservoirpy.nodes import Reservoir
     n, d = c["units"], c["in_dim"]
-    act = exact_fn(c["act"]) if c["act"] in EXACT else c["act"]
-    lr = c["lr"]
-    lr = np.array([float(fr(v)) for v in lr]) if isinstance(lr, list) else (int(lr) if isinstance(lr, int) else float(fr(lr)))
+    pre = c.get("pre") or {}
+    act0 = pre.get("act", c["act"])
+    act = exact_fn(act0) if act0 in EXACT else act0
+    lr = lr_value(pre.get("lr", c["lr"]))
     kw = dict(lr=lr, activation=act, equation=c["eq"], noise_rc=0.0, noise_in=0.0, noise_fb=0.0, name=uname("res"))
     rec = []
     if c["fb"]:
@@ -222,6 +246,7 @@ def run_impl(c):
     else:
         if c["warm"] is not None:
             node.run(farr(c["warm"], d))
+            reassign(node, c)
         elif not node.is_initialized:
             node.initialize(X[:1])
         o["s0"] = np.asarray(node.internal_state).ravel().tolist()
@@ -378,7 +403,9 @@ def correspondence(ctx):
                     "lr:" + ("vector" if isinstance(c["lr"], list) else "scalar"),
                     "fb:" + (c["fb"]["mode"] + "/" + c["fb"]["fb_act"] if c["fb"] else "none"),
                     "start:" + ("from_state" if c["r0"] is not None else "current") + ("+warm" if c["warm"] is not None else ""),
-                    "how:" + c["how"]):
+                    "how:" + c["how"], "reassigned:" + ("none" if not c.get("pre") else "+".join(
+                        ["lr:%s->%s" % ("vec" if isinstance(c["pre"]["lr"], list) else "scalar", "vec" if isinstance(c["lr"], list) else "scalar")]
+                        + (["activation"] if "act" in c["pre"] else [])))):
             count(key)
         if nontrivial(c, o):
             nt.add(repr(jsonable(c)))
@@ -395,7 +422,7 @@ def correspondence(ctx):
     return {"evaluations": len(terms), "distinct_nontrivial": len(nt),
             "rule": "seeded Reservoir scenarios (units 1-6, in_dim 1-3, T<=10; both equations; scalar/per-unit lr in [0,1]; W dense/csr/csc or "
                     "seeded initialisers read back; bias split/in-Win/off; exact and named activations; feedback stand-alone or inside a Model; "
-                    "start = current state after a warm-up run or from_state; run() or step-wise call()) plus Win/bias shape conventions incl. "
+                    "start = current state after a warm-up run or from_state; run() or step-wise call(); lr / activation reassigned by attribute assignment on the initialised node between the warm-up and the checked run) plus Win/bias shape conventions incl. "
                     "rejected shapes; non-trivial = >= 2 steps, some output non-zero, W.r non-zero at some step, output changes between steps; "
                     "distinct by scenario text",
             "samples": [keep[0], keep[1], keep[min(7, len(keep) - 1)]],
@@ -454,7 +481,7 @@ def _judge(c):
         y = np.array(o["fbs"][t], dtype=float).reshape(-1, 1) if Wfb is not None else None
         _, s, r2 = numpy_law(c["eq"], W, Win, bias, Wfb, lr, f, g, s, r, X[t].reshape(-1, 1), y)
         if not close(r2.ravel(), o["outs"][t]):
-            return _viol("%s:step" % c["eq"], "state at step %d is not the documented update of the previous state (%s equation)" % (t, c["eq"]),
+            return _viol("%s:step%s" % (c["eq"], ":after-reassignment" if c.get("pre") else ""), "state at step %d is not the documented update of the previous state (%s equation)" % (t, c["eq"]),
                          c, r2.ravel().tolist(), o["outs"][t])
         r = np.array(o["outs"][t]).reshape(-1, 1)
     if not close(r.ravel(), o["rfin"]):
@@ -504,6 +531,8 @@ def gen_ugly(rng, i):
     c["Win"] = g.normal(size=(n, d + (1 if c["win_mode"] == "biascol" else 0))).tolist()
     c["bias"] = g.normal(size=n).tolist()
     c["lr"] = float(g.random()) if not isinstance(c["lr"], list) else g.random(n).tolist()
+    if c.get("pre"):
+        c["pre"]["lr"] = float(g.random()) if not isinstance(c["pre"]["lr"], list) else g.random(n).tolist()
     c["X"] = (g.normal(size=(T, d)) * rng.choice([1.0, 10.0])).tolist()
     c["r0"] = g.normal(size=n).tolist() if c["r0"] is not None else None
     if c["fb"]:
